@@ -4,6 +4,7 @@ table lookup from its fields to Rust text."""
 import random
 
 PRELUDE = """
+pub struct N(pub i32);
 pub struct App { pub id: u32 }
 pub struct Conc { pub id: u32 }
 pub trait HasId { fn id(&self) -> String; }
@@ -62,6 +63,10 @@ class Prog:
                 params.append(f"(x{j}, y{j}): (i32, i32)"); logs.append(f'format!("{{:?}}", x{j})'); logs.append(f'format!("{{:?}}", y{j})'); leaf += 2
             elif k == "wild":
                 params.append("_: i32"); logs.append('String::from("_")'); leaf += 1
+            elif k == "samename":
+                params.append(f"f{fi}: i32"); logs.append(f'format!("{{:?}}", f{fi})'); leaf += 1
+            elif k == "liftname":
+                params.append(f"crate::N(f{fi}): crate::N"); logs.append(f'format!("{{:?}}", f{fi})'); leaf += 1
             elif k == "gen":
                 gens.append(f"G{fi}x{j}: ::core::fmt::Debug + Send")
                 params.append(f"g{j}: G{fi}x{j}"); logs.append(f'format!("{{:?}}", g{j})'); leaf += 1
@@ -112,6 +117,8 @@ class Prog:
                 exprs.append(f"({a}, {b})"); logged += [str(a), str(b)]; leaf += 2
             elif k == "wild":
                 exprs.append(str(self.vals[leaf])); logged.append("_"); leaf += 1
+            elif k == "liftname":
+                exprs.append(f"crate::N({self.vals[leaf]})"); logged.append(str(self.vals[leaf])); leaf += 1
             else:
                 e, l, _ = value_of(k, leaf, self.vals)
                 exprs.append(e)
